@@ -1415,6 +1415,9 @@ func (r *Raft) InstallSnapshot(
 	// The received snapshot does not contain anything new.
 	if r.lastIncludedIndex >= request.LastIncludedIndex ||
 		r.lastApplied >= request.LastIncludedIndex {
+		// Acknowledge the chunk: the leader must see the transfer make progress and
+		// complete, otherwise it sends the same snapshot over and over again.
+		response.BytesWritten = request.Offset + int64(len(request.Bytes))
 		return nil
 	}
 
